@@ -147,7 +147,7 @@ def run(ctx: Ctx):
             nontrivial=lambda c: len(c["array"]["shape"]) >= 2,
         )
     ctx.trust("numpy transpose/reshape row-major semantics", "numpy.lib.array_utils.normalize_axis_tuple", "z3 / cvc5")
-    return "other", ("Mixed: label-offset obligations (offset_labels, ravel) proved on the real source; axis bookkeeping and slice independence of the whole call are bounded stand-ins. " + note)
+    return "other", ("Mixed: label-offset obligations (offset_labels, ravel), the axis helpers (_move_reduce_dims_to_end, _collapse_axis, _squeeze_results) and the block-collapsing graph layer proved on the real source; how groupby_reduce / chunk_reduce compose them (which axes they hand over) and slice independence of the whole call are bounded stand-ins. " + note)
 
 
 def _case_of(payload):
